@@ -125,7 +125,13 @@ void StdVectorBase<T, Alloc, SizeType>::freeStorage() noexcept {
 template <class T, class Alloc, class SizeType>
 void SmallVectorBase<T, Alloc, SizeType>::resetToSmall(SizeType inplaceCapa) {
   T *dynStorage = _storage.dyn();
-  (void)amc::uninitialized_relocate_n(dynStorage, _size, _storage.ptr());
+  try {
+    // the inline slots share their bytes with the pointer to the dynamic storage
+    RelocateToNewBuffer(dynStorage, _size, _storage.ptr());
+  } catch (...) {
+    _storage.setDyn(dynStorage);
+    throw;
+  }
   this->deallocate(dynStorage, _capa);
   _capa = _size;
   _size = _size == inplaceCapa ? std::numeric_limits<SizeType>::max() : inplaceCapa;
